@@ -1,5 +1,6 @@
 import Irismod.Props.Tie_Nft
 open Irismod.Props.Tie Irismod.Gen.PureNft
+#print axioms nft_effects_pinned
 #print axioms nft_guards_pinned
 #print axioms nft_all_translated
 #print axioms nft_translated_pinned
